@@ -70,7 +70,9 @@ var permWallets = []WalletSpec{
 	{Name: "Wallet10", Kind: "nd", Accounts: []string{"acc1"}},
 	{Name: "Wallet2", Kind: "nd", Accounts: []string{"acc1", "val-1", "../Wallet1/acc1", "val-1/."}},
 	{Name: "xWallet2", Kind: "nd", Accounts: []string{"acc1"}},
-	{Name: "wallet3", Kind: "nd", Accounts: []string{"acc1"}},
+	// one key held twice: under another name in the same wallet, and in another wallet (a validator moved, the old
+	// entry still there).  Each of them is an account of its own, with its own name.
+	{Name: "wallet3", Kind: "nd", Accounts: []string{"acc1", "acc1copy", "moved"}, SameKeyAs: map[string]string{"acc1copy": "wallet3/acc1", "moved": "Wallet10/acc1"}},
 	{Name: "Empty", Kind: "nd"}, // holds nothing at start-up: whatever it lists was created through Dirk
 }
 
@@ -188,6 +190,9 @@ func runPerm(t *testing.T, rc *RunCtx) {
 		keyPad := 0
 		if !byKey && ch.Pick(8, 0) == 7 {
 			keyPad = 1 + ch.Pick(2, 0) // addressed by public key followed by junk bytes (resolves to the same account)
+		}
+		if a.DupKey {
+			byKey, keyPad = false, 0 // two accounts hold this key: only the name says which one is meant
 		}
 		opIdx := ch.Pick(len(permOps), 0)
 		op := permOps[opIdx]
